@@ -334,7 +334,7 @@ Definition div_asis (a b : reduced) : result reduced :=
   rbind (inv_asis b) (fun o =>
     match o with
     | None => Panic NonInvertible
-    | Some ib => mul_asis ib a
+    | Some ib => mul_asis a ib
     end).
 
 (** PartialEq *)
